@@ -320,6 +320,34 @@ def _interp_check(a):
             if len(g) != len(c) or err > 1e-8 * max(1.0, max(abs(y) for y in c)) or abs(float(rb) - r) > 1e-9:
                 return False, {"why": "interpolating the long-time family at a stored height does not return the stored curve / radius", "height": h, "heights_in_storage_order": heights,
                                "max_error": err, "rb": float(rb), "rb_stored": r, "fresh_object": fresh_each, "signature": "stored-height-not-reproduced"}
+    # history (C13): what a family object returns for a height does not depend on the heights it was asked for before - queries between, below and above the
+    # stored heights in every order of two, each compared with the same query on a fresh object (which may itself raise: then the used object must raise too)
+    if len(heights) >= 2:
+        lo, hi = min(heights), max(heights)
+        probes = [0.5 * (lo + hi) + 0.37, lo * 0.8, hi * 1.12, sorted(heights)[len(heights) // 2] - 0.123]
+
+        def ask(gf, h):
+            with warnings.catch_warnings():
+                warnings.simplefilter("ignore")
+                try:
+                    g, rb, d, h_eq = gf.g_function_interpolation(a["B"] / h)
+                    return ("value", [float(x) for x in g], float(rb))
+                except Exception as e:  # noqa: BLE001
+                    return ("raises", type(e).__name__)
+
+        for first in probes:
+            for second in probes:
+                if first == second:
+                    continue
+                used = mk()
+                ask(used, first)
+                got, want = ask(used, second), ask(mk(), second)
+                if got != want:
+                    return False, {"why": "the interpolated long-time g-function for a height depends on the height the same object was asked for before", "first_query_height": first,
+                                   "second_query_height": second, "stored_heights": sorted(heights), "fresh_object": want[:1] + want[2:] if want[0] == "value" else want,
+                                   "used_object": got[:1] + got[2:] if got[0] == "value" else got,
+                                   "max_difference": (max(abs(x - y) for x, y in zip(got[1], want[1])) if got[0] == want[0] == "value" else None),
+                                   "signature": "history-dependent/interpolation-table/" + ("raises" if "raises" in (got[0], want[0]) else "values-differ")}
     return True, {}
 
 
@@ -336,7 +364,7 @@ def _interp_gen(rng):
 
 
 native(f"{GF}:GFunction.g_function_interpolation", _interp_check, _interp_gen, None,
-       bound="real GFunction objects with 1..5 stored heights in arbitrary storage order, random curves and radii: B/H of every stored height returns the stored curve and radius (fresh object and shared object with cached interpolation table)")
+       bound="real GFunction objects with 1..5 stored heights in arbitrary storage order, random curves and radii: B/H of every stored height returns the stored curve and radius (fresh object and shared object with cached interpolation table); every ordered pair of queries between / below / above the stored heights gives on a used object what a fresh object gives")
 
 
 # ---- BaseGHE.compute_g_functions: the GHE takes over a *new* family object (whose interpolation table has not been built) --------------------------------------
